@@ -85,14 +85,30 @@ func (fc *FnCtx) envAtLoop(li *loopInfo, st *State, over map[*ssa.Phi]Val) *Env 
 // lookupVar finds the SSA value bound to a source variable name in a block
 // dominating at (the latest DebugRef in dominator order).
 func (fc *FnCtx) lookupVar(name string, at *ssa.BasicBlock, st *State) (Val, bool) {
+	return fc.lookupVarBefore(name, at, nil, st)
+}
+
+// lookupVarBefore: as lookupVar, but when cur is an instruction of block at,
+// the references preceding cur in that block are searched first (the value of
+// the source variable just before cur executes).
+func (fc *FnCtx) lookupVarBefore(name string, at *ssa.BasicBlock, cur ssa.Instruction, st *State) (Val, bool) {
 	var best *ssa.DebugRef
 	for b := at; b != nil; b = b.Idom() {
-		for i := len(b.Instrs) - 1; i >= 0; i-- {
+		start := len(b.Instrs) - 1
+		if b == at && cur != nil {
+			for i, in := range b.Instrs {
+				if in == cur {
+					start = i - 1
+					break
+				}
+			}
+		}
+		for i := start; i >= 0; i-- {
 			d, ok := b.Instrs[i].(*ssa.DebugRef)
 			if !ok {
 				continue
 			}
-			if b == at {
+			if b == at && cur == nil {
 				// only header phis/before-loop refs are meaningful; skip refs inside the header body
 				if _, isPhi := d.X.(*ssa.Phi); !isPhi {
 					continue
@@ -216,7 +232,17 @@ func (fc *FnCtx) evalIdent(x *ast.Ident, env *Env) Val {
 		}
 	}
 	if s, ok := fc.eng.cs.Ghosts[x.Name]; ok {
-		_ = s
+		if gt, typed := fc.eng.cs.GhostTypes[x.Name]; typed {
+			pi := fc.eng.pkgs[gt[0]]
+			if pi == nil {
+				panic(specErr("typed ghost " + x.Name + ": package not loaded"))
+			}
+			tv, err := types.Eval(fc.eng.fset, pi.Types, token.NoPos, gt[1])
+			if err != nil {
+				panic(specErr("typed ghost " + x.Name + ": " + err.Error()))
+			}
+			return fc.vc.ptrFromRef(fc.ghost(env.state(), x.Name), tv.Type)
+		}
 		return Val{K: ghostKind(s), S: fc.ghost(env.state(), x.Name)}
 	}
 	// package-level constant or variable
@@ -447,7 +473,7 @@ func (fc *FnCtx) evalBinary(x *ast.BinaryExpr, env *Env) Val {
 		if x.Op == token.SHL {
 			return Val{K: KInt, S: app("*", as, p)}
 		}
-		return Val{K: KInt, S: app("div", as, p)}
+		return Val{K: KInt, S: shrTerm(as, uint(n.Int64()))}
 	}
 	panic(specErr("unsupported operator in spec: " + x.Op.String()))
 }
@@ -597,10 +623,37 @@ func (fc *FnCtx) evalCall(x *ast.CallExpr, env *Env) Val {
 		}
 		v := arg(len(x.Args) - 1)
 		return Val{K: a.K, S: stor(a.S, idx, v.S)}
+	case "indom":
+		// indom(m, k): key k is present in map m
+		m := arg(0)
+		mt, ok := m.T.Underlying().(*types.Map)
+		if !ok {
+			panic(specErr("indom: first argument must be a map"))
+		}
+		return boolV(fc.mapDom(env.state(), m, mt, fc.keyTerm(arg(1), mt)))
 	case "isnil":
 		return boolV(fc.specEq(arg(0), Val{K: KInt, S: "0", T: types.Typ[types.UntypedNil]}))
 	case "tagof":
 		return intV(arg(0).Tag, nil)
+	case "unboxptr", "sizeofptr":
+		// the pointer that was converted to the interface value given (known when the
+		// conversion happened in the function under verification)
+		v := arg(0)
+		p, ok := fc.eng.boxes[v.S]
+		if !ok || p.K != KPtr {
+			panic(specErr(fn.Name + ": argument is not an interface built from a pointer in this function"))
+		}
+		if fn.Name == "unboxptr" {
+			return p
+		}
+		pt, _ := p.T.Underlying().(*types.Pointer)
+		if pt != nil {
+			if b, ok := pt.Elem().Underlying().(*types.Basic); ok {
+				bits, _ := intBits(b)
+				return intV(itoa(int64(bits/8)), nil)
+			}
+		}
+		panic(specErr("sizeofptr: pointee is not a sized integer"))
 	case "payload":
 		// the reference an interface / pointer / map value holds
 		return intV(fc.idxTerm(arg(0)), nil)
